@@ -337,6 +337,22 @@ func c11SteerFixed() []c11SteerJob {
 	ems("ems-client-requires-resumes-session-without-ems", false, 0, 2, 1, 0)
 	ems("control-ems-required-resumes-session-with-ems", false, 0, 0, 1, 1)
 	ems("control-ems-disabled-after-ems-session", false, 0, 0, 2, 0)
+	// the whole cross product: main client policy x main server policy over {Request 0, Require 1, Disable 2}, resuming a
+	// session made with EMS (seed 0/0) and without it (client disabled it, server disabled it), certificate and PSK.
+	// A side that requires EMS must abort when THIS handshake's hellos do not carry it - resumed or not.
+	for _, psk := range []bool{false, true} {
+		for _, seed := range [][3]int{{0, 0, 1}, {2, 0, 0}, {0, 2, 0}} {
+			for mc := 0; mc <= 2; mc++ {
+				for ms := 0; ms <= 2; ms++ {
+					name := fmt.Sprintf("ems-resume-seed%d%d-main%d%d", seed[0], seed[1], mc, ms)
+					if psk {
+						name += "-psk"
+					}
+					ems(name, psk, seed[0], seed[1], mc, ms)
+				}
+			}
+		}
+	}
 	// ---- dual-stack downgrade through the first ClientHello
 	add("downgrade-dual-stack-strip-supported-versions", false, func(c, s *c11Cfg, o *c11Opt) {
 		s.Key = 1
